@@ -1,10 +1,15 @@
 import SelenModel.Model.Lp
+import SelenModel.Model.Simplex
 import Driver.Util
 /-
 `lp.*` ops of the line protocol: model side (certificate checking).
 
   lp.prob <first|next> nv=<n> nc=<m> c=<f,..> a=<row;row;..> b=<f,..> lo=<f,..> up=<f,..> ftol=<f> otol=<f>
       -> validate=<ok|ErrName[:i]> std=<rows>x<cols> guard=<0|1> dual=<0|1>
+  lp.trace maxit=<n>
+      -> <phase>:<basic,..> ... => <Optimal|Unbounded|IterationLimit|Err:SingularBasis|Err:NumericalInstability|Err:model>
+         (the basis sequence of `Selen.Lp.solvePrimal`: 0 = slack basis tested by phase_one, 1 = Phase I
+          iteration, 2 = Phase II iteration)
   lp.sol <cold|synth|warm-self|warm-prev> st=<status> obj=<f> x=<f,..> basis=<i,..>
       -> reach=<0|1> <legal|illegal:why|n/a> xdev=<ok|bad|-> obj=<ok|bad|-> objcx=<ok|bad|->     (Ok statuses)
       -> err                                                                                  (Err / panic)
@@ -62,42 +67,6 @@ def showValidate : Option ValidateErr → String
   | some .rhsNotFinite => "RhsNotFinite"
 
 /-! ### exact linear algebra (untrusted: its results are re-checked by `legalOptimal`) -/
-
-/-- first row with a non-zero entry in column `k`, and the others (order kept) -/
-def splitPivot (k : Nat) : List Vec → Option (Vec × List Vec)
-  | [] => none
-  | r :: rs =>
-    if r.getD k 0 ≠ 0 then some (r, rs)
-    else match splitPivot k rs with
-      | some (p, rest) => some (p, r :: rest)
-      | none => none
-
-def rowSub (r : Vec) (f : Rat) (p : Vec) : Vec := List.zipWith (fun a b => a - f * b) r p
-
-/-- Gauss-Jordan on augmented rows; `done` holds the rows whose pivots are columns `0..k-1` -/
-def gaussJordan : Nat → Nat → List Vec → List Vec → Option (List Vec)
-  | 0, _, done, todo => if todo.isEmpty then some done else none
-  | fuel + 1, k, done, todo =>
-    match todo with
-    | [] => some done
-    | _ =>
-      match splitPivot k todo with
-      | none => none
-      | some (p, rest) =>
-        let pv := p.getD k 0
-        let pn := p.map (fun a => a / pv)
-        let red := fun (r : Vec) => rowSub r (r.getD k 0) pn
-        gaussJordan fuel (k + 1) (done.map red ++ [pn]) (rest.map red)
-
-/-- solve `M v = rhs` for a square `M`; `none` when singular -/
-def solveSquare (M : Mat) (rhs : Vec) : Option Vec :=
-  let m := M.length
-  let aug := List.zipWith (fun r b => r ++ [b]) M rhs
-  match gaussJordan (m + 1) 0 [] aug with
-  | some rows => some (rows.map (fun r => r.getD m 0))
-  | none => none
-
-def colOf (A : Mat) (j : Nat) : Vec := A.map (fun r => r.getD j 0)
 
 def transposeCols (cols : List Vec) (m : Nat) : Mat :=
   (List.range m).map (fun i => cols.map (fun c => c.getD i 0))
@@ -208,8 +177,26 @@ def lpSol (st : LpSt) (path : String) (ws : List String) : LpSt × String :=
   | some s => (st, s)
   | none => (st, "bad-op")
 
+def showOutcome : Outcome → String
+  | .optimal => "Optimal"
+  | .unbounded => "Unbounded"
+  | .iterationLimit => "IterationLimit"
+  | .errSingular => "Err:SingularBasis"
+  | .errInstability => "Err:NumericalInstability"
+  | .errModel => "Err:model"
+
+def showEvent (e : Event) : String := s!"{e.1}:" ++ ",".intercalate (e.2.map toString)
+
+def lpTrace (st : LpSt) (ws : List String) : LpSt × String :=
+  match st.prob, (lpField ws "maxit").bind (·.toNat?) with
+  | some P, some maxit =>
+    let (tr, o, _) := solvePrimal P st.ftol st.otol maxit
+    (st, " ".intercalate (tr.map showEvent) ++ " => " ++ showOutcome o)
+  | _, _ => (st, "bad-op")
+
 def lpStep (st : LpSt) (ws : List String) : LpSt × String :=
   match ws with
+  | "lp.trace" :: rest => lpTrace st rest
   | "lp.prob" :: _ :: rest => lpProb st rest
   | "lp.sol" :: path :: rest =>
     if path == "cold" || path == "synth" || path == "warm-self" || path == "warm-prev" then lpSol st path rest
